@@ -227,6 +227,11 @@ func (ex *Exec) callFunction(caller *frame, fn *ssa.Function, args []Value, env 
 		depth = caller.depth + 1
 	}
 	if depth > ex.maxDepth {
+		if ex.modes["depth-limit-is-nontermination"] {
+			// the harness claims termination: unbounded recursion is Go's fatal
+			// stack overflow, reported as a panic candidate and confirmed natively
+			ex.goPanic("stack overflow (call depth " + fmt.Sprint(ex.maxDepth) + " exceeded in " + fn.String() + ")")
+		}
 		ex.unsupported("call depth exceeded in %s", fn.String())
 	}
 	if fn.Pkg != nil && ex.trackFns != nil && ex.inInit == 0 {
